@@ -118,6 +118,10 @@ package samlsp
 //@ assert@call[C17] CreateSession #1 (sess SessionProvider, w2 http.ResponseWriter, rq *http.Request, a *saml.Assertion) uses target=redirectURI string session_only_for_tracked_flow:
 //@    a == assertion && (m.ServiceProvider.AllowIDPInitiated || r.Form.Get("RelayState") == "" || TrackedURI(m.RequestTracker, r, r.Form.Get("RelayState"), target))
 
+//@ -- filled completely from the configured source (io.ReadFull: one Read may come up short); the panic on a failing
+//@ -- source is an environment fault and not counted
 //@ contract randomBytes
-//@ trusted
+//@ requires[cfg] n: n >= 0
 //@ ensures[C17] length: len(result) == n
+//@ assert@call[C17] io.ReadFull #1 (r io.Reader, buf []byte) uses rv []byte fills_all_from_configured_source:
+//@    r == saml.RandReader && sameBytes(buf, rv) && len(buf) == n
